@@ -73,9 +73,14 @@ def RV():
     return _CACHE['rv']
 
 
+COMP_OPTS = {}      # public option attributes set on every new competition (e.g. verbose=1: the diagnostic flag)
+
+
 def new_comp():
     c = HJ()()
     c.actions = GuardedLog()
+    for k, v in COMP_OPTS.items():
+        setattr(c, k, v)
     return c
 
 
@@ -111,6 +116,15 @@ def apply_call(comp, call):
             return None
         except Exception as e:     # noqa
             return e
+    if COMP_OPTS:
+        import io, contextlib
+        with contextlib.redirect_stdout(io.StringIO()):
+            return _apply_call(comp, call)
+    return _apply_call(comp, call)
+
+
+def _apply_call(comp, call):
+    kind, arg = call
     GuardedLog.armed = True
     try:
         if kind == 'addnb':
